@@ -155,6 +155,11 @@ def c15(ck):
     sc.append(("stop_steady_arrivals", 0, 400, 1, 4, ["steady:0:2500:30"], {"ret": "ok", "not_before": 390, "not_after": 900}))
     sc.append(("stop_idle2_steady", 2, 500, 2, 3, ["steady:100:2500:40"], {"ret": "ok", "not_before": 490, "not_after": 1000}))
     sc.append(("idle1_stop_never", 1, 60000, 1, 4, [], {"ret": "Timeout", "not_before": 950, "not_after": 2400}))
+    # a stop flag that is present but never set changes the poll quantum: the idle countdown must still restart with
+    # every accepted connection
+    sc.append(("idle1_stopflag_conn_midwindow", 1, 60000, 1, 4, ["700:100:" + ok_req], {"ret": "Timeout", "not_before": 1650, "not_after": 3300, "complete": 1}))
+    sc.append(("idle2_stopflag_two_conns", 2, 60000, 1, 4, ["1500:100:" + ok_req, "2600:100:" + ok_req],
+               {"ret": "Timeout", "not_before": 4550, "not_after": 6300, "complete": 2}))
     if not quick:
         for i in range(12):
             at = rng.randint(50, 900)
